@@ -1,6 +1,7 @@
 package main
 
 import (
+	"github.com/pip-services3-gox/pip-services3-expressions-gox/calculator/parsers"
 	"fmt"
 	"strings"
 
@@ -366,9 +367,55 @@ func propVariableReplacement(c *Ctx) {
 	}
 }
 
+// many distinct variables with early ones recurring late; the name list of an EARLIER expression, still held by the caller,
+// after the parser went on to another expression
+func propManyVariables(c *Ctx) {
+	for _, n := range []int{63, 64, 65, 66, 130, 300} {
+		var parts, want []string
+		for i := 0; i < n; i++ {
+			parts = append(parts, fmt.Sprintf("v%d", i))
+			want = append(want, fmt.Sprintf("v%d", i))
+		}
+		parts = append(parts, "v3", "v0", fmt.Sprintf("v%d", n-1), "v64", "v1")
+		if n <= 64 {
+			want = append(want, "v64")
+		}
+		expr := strings.Join(parts, " + ")
+		op := fmt.Sprintf("manyvars %d", n)
+		c.record(op, true)
+		c.count("many-variables")
+		note := ""
+		st := safeCall(func() string {
+			p := parsers.NewExpressionParser()
+			if err := p.ParseString(expr); err != nil {
+				return "rejected " + errCode(err)
+			}
+			got := p.VariableNames()
+			if strings.Join(got, " ") != strings.Join(want, " ") {
+				note = fmt.Sprintf("an expression over %d distinct variables with early ones repeated at the end reports %d names (%s …), expected %d, each once in order of first occurrence", n, len(got), strings.Join(got[max(0, len(got)-6):], " "), len(want))
+				return ""
+			}
+			held := append([]string(nil), got...)
+			p.ParseString("zz + yy * zz")
+			if strings.Join(got, " ") != strings.Join(held, " ") {
+				note = fmt.Sprintf("the name list returned for the first expression reads %q … after the parser parsed another expression", strings.Join(got[:3], " "))
+				return ""
+			}
+			if second := strings.Join(p.VariableNames(), " "); second != "zz yy" {
+				note = "the second expression reports the variables " + second
+			}
+			return ""
+		})
+		if st != "" || note != "" {
+			c.fail(Failure{Kind: "oracle", Op: op, Impl: st, Note: note})
+		}
+	}
+}
+
 func propC18(c *Ctx) {
 	propScaleCollections(c)
 	propVariableReplacement(c)
+	propManyVariables(c)
 	propScaleExpressions(c, "C18")
 	g := newExGen(c)
 	g.vars = []string{"a", "A", "b", "xyz", "XyZ", "_v1", "\"my var\"", "\"MY VAR\"", "é1", "É1", "iſ_x", "IS_X", "\"a\"", "Max", "null_1", "\"a[\"", "\"a{\"", "\"f@\"", "\"f`\""}
@@ -431,6 +478,10 @@ func propC18(c *Ctx) {
 var mustacheVars func(c *Ctx)
 
 func replayC18(c *Ctx, op string) {
+	if strings.HasPrefix(op, "manyvars ") {
+		propManyVariables(c)
+		return
+	}
 	if strings.HasPrefix(op, "varrepl ") {
 		propVariableReplacement(c)
 		return
